@@ -206,6 +206,10 @@ def r1(R1, cfg, F):
                 v = b.call_roots(f['value'])
                 ok = len(r) == 1 and r[0].callee.best == 'std::any::TypeId::of' and len(v) == 1 and v[0].callee.best == 'std::cell::UnsafeCell::<T>::new' \
                     and r[0].callee.args == v[0].callee.args
+                if not ok and len(r) == 1 and len(v) == 1 and r[0] is v[0] and r[0].dest and r[0].dest['ty'] == s['place']['ty']:
+                    # `EntryStorage { dynamic: .., ..other }`: id and value are taken together from one storage of the same type
+                    ok = common.strip_refs(common.deep_path(b, f['type_id'], at=bb) or []) == ['call@bb%d' % r[0].bb, 'type_id'] \
+                        and common.strip_refs(common.deep_path(b, f['value'], at=bb) or []) == ['call@bb%d' % r[0].bb, 'value']
                 R1.check(ok, cfg, b.path, 'constructor-records-TypeId-of-stored-type', 'an EntryStorage must record TypeId::of of the very type it stores', '%s:%s' % (b.file, s['line']))
             pl = s['place']
             if any(isinstance(e, dict) and e.get('n') == 'type_id' and e.get('of') == 'entry::EntryStorage' for e in pl['p'][-1:]):
